@@ -11,7 +11,8 @@
         probe  {"v":[octets of the setter parameter's type], "rej":bool}      an out-of-range value was offered
         unbound / noprobe    nothing to check (counted by tools/families/c15.py as not covered / not applicable)
 
-   Sentences of C15 and the clauses that carry them (Clause selects one clause for diagnosis; "all" decides):
+   Sentences of C15 and the clauses that carry them (a rejected event prints <<"FAIL", line, {violated clauses}>>,
+   which tools/families/c15.py turns into the kind of the finding):
      "setting any representable value makes the getter return that value" ............ CAccepted, CGetter
      "while every other getter of the object keeps its previous value" ............ CNeighbours
      "values too large for a sub-byte or odd-width field are rejected with an error instead of being truncated" ... ProbeEv
@@ -21,11 +22,9 @@
    getters of alias views that share bits with the written field are unconstrained; reserved bits without a field
    in the table must keep their value (they are "bits the specification does not assign to that field"). *)
 EXTENDS TraceIO, Layouts
-CONSTANT Clause
 VARIABLE dummy
 vars == <<ex, l, dummy>>
 Init == \E s \in Starts : TraceInit(s) /\ dummy = 0
-On(c) == Clause = "all" \/ Clause = c
 
 Tbl == Layout[Cfg.cls]
 Fld == Tbl.fields[Cfg.field]
@@ -50,17 +49,19 @@ CBytes(e) ==
             [] FreeSummary[Cfg.cls][i] = 2 -> TRUE
             [] OTHER -> \A k \in 0..7 : FreeTab[Cfg.cls][i][k] \/ BitAt(e.ha, 8 * (i - 1) + k) = BitAt(want, 8 * (i - 1) + k)
 
+Holds(c, e) == CASE c = "spurious_reject" -> CAccepted(e)
+                 [] c = "getter_mismatch" -> CGetter(e)
+                 [] c = "neighbour_changed" -> CNeighbours(e)
+                 [] c = "bytes_mismatch" -> CBytes(e)
+Report(bad) == bad = {} \/ (PrintT(<<"FAIL", l, bad>>) /\ FALSE)
 SetEv == /\ IsEvent("set")
          /\ Cfg.bound /\ Cfg.cls \in DOMAIN Layout /\ Cfg.field \in DOMAIN Tbl.fields
          /\ Len(Ev.v) = NBytes(Fld.w) /\ ~TooLarge(Ev.v, Fld.w)          \* the harness offers representable values only
-         /\ On("rej") => CAccepted(Ev)
-         /\ On("get") => CGetter(Ev)
-         /\ On("ni") => CNeighbours(Ev)
-         /\ On("bytes") => CBytes(Ev)
+         /\ Report({c \in {"spurious_reject", "getter_mismatch", "neighbour_changed", "bytes_mismatch"} : ~Holds(c, Ev)})
          /\ UNCHANGED dummy
 ProbeEv == /\ IsEvent("probe")
            /\ Cfg.bound /\ OddWidth(Fld.w)
-           /\ TooLarge(Ev.v, Fld.w) => Ev.rej
+           /\ Report(IF TooLarge(Ev.v, Fld.w) /\ ~Ev.rej THEN {"truncated_not_rejected"} ELSE {})
            /\ UNCHANGED dummy
 \* nothing to check: the pair has no setter binding (c15.py reports it as not covered) / the parameter type cannot carry
 \* a too-large value or the field is a whole machine word (range rule not applicable)
